@@ -76,6 +76,8 @@ def main():
                         pass
         res["checks"] = caught
     finally:
+        # leave lean/ScriggoV/Gen regenerated from /repo itself (the checks above regenerated it from the scratch copy)
+        sh(["flock", os.path.join(V, ".lock"), os.path.join(V, "bin", "extract"), "-repo", "/repo", "-out", os.path.join(V, "lean", "ScriggoV", "Gen")])
         sh(["git", "-C", "/repo", "worktree", "remove", "--force", scratch])
         shutil.rmtree(f"/tmp/sv/{prop}", ignore_errors=True)
     print(json.dumps(res, indent=1))
